@@ -343,6 +343,7 @@ func translateOneDataBlob(logger log.Logger, match stringMatcher, visitor visito
 		// A change due to repairing invalid UTF8 does not count as a "match".
 		// For example, the access control visitor only wants to match if
 		// a request is allowed or not.
+		decodeErr := err
 		repairedEvents, c, err := tryRepairInvalidUTF8InBlob(blob)
 		changed = changed || c
 		if err != nil {
@@ -353,6 +354,12 @@ func translateOneDataBlob(logger log.Logger, match stringMatcher, visitor visito
 			logger.Debug("repaired invalid utf-8 in history event blob")
 			metrics.TranslationCount.WithLabelValues(metrics.UTF8RepairTranslationKind, metrics.HistoryBlobMessageType).Inc()
 			events = repairedEvents
+		} else {
+			// Nothing was repaired (the invalid UTF-8 is not in a failure message), so the blob still does not
+			// decode. Report that instead of passing the blob on undecoded and unvisited.
+			logger.Error("invalid utf-8 in history event blob could not be repaired", tag.Error(decodeErr))
+			metrics.TranslationErrors.WithLabelValues(metrics.UTF8RepairTranslationKind, metrics.HistoryBlobMessageType).Inc()
+			return blob, matched, changed, decodeErr
 		}
 	}
 
